@@ -23,6 +23,7 @@ def layout_labels(lay, plan, stats):
         stats.label("read_only", r["acc"] == "r")
         stats.label("write_only", r["acc"] == "w")
     stats.label("map_alignment", lay["al"] > 0)
+    stats.label("high_base_address", lay.get("base", 0) >= 256)
     # aliasing under the documented shadow hash (initial shadow size = largest register span)
     for acc in "rw":
         rs = [(s, e) for r, (s, e) in zip(lay["regs"], plan) if acc in r["acc"]]
